@@ -205,6 +205,12 @@ def run_after_history(arg):
     w.logging = False
     n = len(parents)
     list(psutil.process_iter())
+    held = {}
+    for p in range(1, n + 1):
+        o = psutil.Process(p)
+        outcome(o.ppid)
+        outcome(o.parent)           # queried once while the old table was in place
+        held[p] = o
     w.vanish(victim)
     w.tick(5000)
     w.spawn(victim, ppid=new_ppid, comm=b"recycled", start=max(p.start for p in w.procs.values()) + 300)
@@ -213,6 +219,19 @@ def run_after_history(arg):
     ranks2 = [starts.index(w.procs[p].start) for p in range(1, n + 1)]
     ref = reference(parents2, ranks2)
     bad = []
+    for p in range(1, n + 1):
+        if p == victim:
+            continue
+        o, r = held[p], ref[p]
+        got = outcome(o.ppid)
+        if got != ("ok", parents2[p - 1]):
+            bad.append(("after-reparenting:ppid-on-held-object", "pid %d (object created before the change): ppid() -> %r, kernel says %r"
+                        % (p, got, parents2[p - 1])))
+        got = outcome(o.parent)
+        okp = {r["parent"]} | ({None} if r["lowest"] else set())
+        if got[0] != "ok" or (None if got[1] is None else got[1].pid) not in okp:
+            bad.append(("after-reparenting:parent-on-held-object", "pid %d: parent() -> %r expected one of %r"
+                        % (p, got if got[0] != "ok" else getattr(got[1], "pid", None), sorted(okp, key=str))))
     for p in range(1, n + 1):
         pr = psutil.Process(p)
         r = ref[p]
@@ -234,6 +253,67 @@ def run_after_history(arg):
         if got[0] != "ok" or not (set(r["must"]) <= set(got[1]) <= set(r["may"])) or len(set(got[1])) != len(got[1]):
             bad.append(("after-recycling:children-recursive", "pid %d -> %r MUST %r MAY %r" % (p, got, r["must"], r["may"])))
     return bad, 0
+
+
+def run_fault(arg):
+    """tree walk with one process of the table vanishing just before access i (F): only psutil errors may escape,
+    and what is returned lies between the walk of the table before and after"""
+    parents, seed, caller, recursive, idx = arg
+    import psutil
+    from vf.explore.deviate import PlanHook
+    ranks = list(range(len(parents)))
+    w = build_world(parents, ranks, seed)
+    use_world(w)
+    w.logging = False
+    pr = psutil.Process(caller)
+
+    def apply(world, dev, kind, subj, pid):
+        if pid in world.procs and pid != caller:
+            world.vanish(pid)
+    hook = PlanHook(((idx, "vanish"),) if idx is not None else (), apply)
+    w.hook = hook
+    got = outcome(lambda: sorted(c.pid for c in pr.children(recursive=recursive)))
+    w.hook = None
+    bad = []
+    before = reference(parents, ranks)[caller]
+    if got[0] != "ok":
+        if got[1] not in ("NoSuchProcess", "ZombieProcess", "AccessDenied"):
+            bad.append(("fault:children-leaked:%s" % got[1], "children(recursive=%s) of pid %d raised %r when a process vanished before access %r"
+                        % (recursive, caller, got, hook.accesses[idx] if idx is not None and idx < len(hook.accesses) else idx)))
+        elif got[2].get("pid") != caller:
+            bad.append(("fault:children-raised-for-another-pid", "children() of live pid %d raised %r" % (caller, got)))
+    else:
+        may = set(before["may"] if recursive else before["direct"])
+        # orphans of the vanished process are re-parented by the kernel: the table after the event is as good an answer
+        after_pp = {q: pp.ppid for q, pp in w.procs.items() if q != caller}
+        reach, stack = set(), [caller]
+        while stack:
+            x = stack.pop()
+            for q, pq in after_pp.items():
+                if pq == x and q not in reach:
+                    reach.add(q)
+                    if recursive:
+                        stack.append(q)
+        may |= reach
+        if not set(got[1]) <= may or len(set(got[1])) != len(got[1]):
+            bad.append(("fault:children-extra", "got %r, table before %r" % (got[1], sorted(may))))
+    return {"n": len(hook.accesses), "bad": bad}
+
+
+def fault_part(ctx):
+    jobs = []
+    for parents in ([0, 1, 1, 2], [0, 1, 2, 3], [0, 1, 1, 1]):
+        for caller in (1, 2):
+            for rec in (False, True):
+                base = run_fault((parents, ctx.seed, caller, rec, None))
+                jobs.append((parents, ctx.seed, caller, rec, None))
+                for i in range(base["n"]):
+                    jobs.append((parents, ctx.seed, caller, rec, i))
+    viols = []
+    for j, r in zip(jobs, ctx.pmap(run_fault, jobs)):
+        for cause, msg in r["bad"]:
+            viols.append({"cause": cause, "msg": msg, "case": {"fault": [j[0], j[2], j[3], j[4]]}})
+    return len(jobs), viols
 
 
 def run(ctx):
@@ -276,7 +356,9 @@ def run(ctx):
     for wd, (bad, _) in zip(hist, ctx.pmap(run_after_history, hist)):
         for cause, msg in bad:
             viols.append({"cause": cause, "msg": msg, "case": {"parents": wd[0], "ranks": wd[1], "after_history": [wd[3], wd[4]]}})
-    cov = {"after_history_worlds": len(hist), "evaluations": (len(worlds) * n * 4) + len(reused) * 4 + len(hist) * 12, "distinct_nontrivial": len(worlds) + len(reused) - 1,
+    nfault, fv = fault_part(ctx)
+    viols += fv
+    cov = {"fault_runs": nfault, "after_history_worlds": len(hist), "evaluations": (len(worlds) * n * 4) + len(reused) * 4 + len(hist) * 12, "distinct_nontrivial": len(worlds) + len(reused) - 1,
            "rule": "one world = one assignment of parent pids x one weak ordering of start times for N=%d processes; in each world every "
                    "process calls children(), children(recursive=True), parent(), parents() (evaluations = calls); distinct_nontrivial = "
                    "distinct worlds except the one where nobody has a listed parent" % n,
@@ -290,6 +372,10 @@ def run(ctx):
 
 
 def replay(ctx, case):
+    if "fault" in case:
+        f = case["fault"]
+        r = run_fault((f[0], ctx.seed, f[1], f[2], f[3]))
+        return {"violated": bool(r["bad"]), "viols": r["bad"]}
     if "after_history" in case:
         bad, _ = run_after_history((case["parents"], case["ranks"], ctx.seed, case["after_history"][0], case["after_history"][1]))
         return {"violated": bool(bad), "viols": bad}
